@@ -185,7 +185,7 @@ MirrorBad == LET bad == {j \in 1..(MAXM - 1) : dict[DICT + j - 1] # dict[j - 1]}
 
 Proj == [lapos |-> lapos, lasize |-> lasize, dsize |-> dsize, taken |-> spos,
          hist_bad |-> HistBad, look_bad |-> LookBad, mirror_bad |-> MirrorBad,
-         saved_len |-> saved.len, idle |-> pc = "idle", flush |-> flush]
+         saved_len |-> saved.len, idle |-> pc = "idle", flush |-> flush, fillmax |-> lasize + dsize]
 
 \* at every call boundary (where the real state can be observed)
 StateRulesHold == pc = "idle" => StateRules(Proj, DICT, MAXM) = <<>>
